@@ -7,12 +7,19 @@
    Full-strength property (DESIGN.md C15):  after every history `run p0 h = Ok p`
      1. pending_executable p      — REFUTED for the code as it is (C15_pending_executable_refuted):
                                      reset promotes reinjected transactions into the not-yet-demoted
-                                     pending list and demoteUnexecutables only detects a gap in front;
+                                     pending list and demoteUnexecutables only detects a gap in front
+                                     (oracle signature reset-reinject-leaves-gap-in-pending; reachable on a
+                                     self-consistent chain, directed history in the harness);
+                                     pending_executable_partial (no nonce-lowering reinjection) and the
+                                     affordability half are NOT proved yet;
      2. unique_nonce p            — proved (C15_unique_nonce);
-        all_is_union p            — REFUTED (C15_all_is_union_refuted): removeTx drops the invalidated
-                                     successors when the pending list becomes empty, leaving them in pool.all;
+        all_is_union p            — proved (C15_all_is_union) since the /repo fix "removeTx re-queues
+                                     invalidated successors also when the pending list becomes empty";
      3. replacement_needs_bump    — proved (C15_replacement_needs_bump, C15_list_replacement_needs_bump);
-     4. limits_hold p             — not proved here (checked on the implementation by the direct oracle);
+     4. limits_hold p             — not proved; FALSE at all times for the queue limits of the code as it is
+                                     (removeTx re-queues without a cap and a replacing add / SetGasPrice is not
+                                     followed by promoteExecutables: oracle signature
+                                     removetx-requeue-exceeds-queue-limits); checked by the direct oracle;
      5. reorg_reinjects           — not proved here (checked on the implementation by the direct oracle). *)
 From Coq Require Import List ZArith.
 From AQ Require Import Pool.PoolModel Pool.PoolSpec Pool.PoolProofs.
@@ -45,6 +52,22 @@ Theorem C15_list_replacement_needs_bump : forall (l : txlist) (t : tx) (bump : Z
   tl_add l t bump = (true, Some o, l') -> tnonce o = tnonce t /\ In o (items l) /\ bump_ok bump o t.
 Proof. exact tl_add_bump. Qed.
 Print Assumptions C15_list_replacement_needs_bump.
+
+(* 2b. pool.all is exactly pending ∪ queue after every history from the empty pool, under every oracle
+       (no premise about hash collisions: the known-transaction check of TxPool.add provides what is needed) *)
+Theorem C15_all_is_union : forall (h : list (oracle * op)) (c : cfg) (gp : Z) (cur0 : list (Z * (Z * Z))) (gas0 : Z) (p' : pool),
+  run (new_pool c gp cur0 gas0) h = Ok p' ->
+  forall hash, (exists t, assoc hash (all p') = Some t) <-> (exists t, listed p' t /\ thash t = hash).
+Proof. exact all_is_union_invariant. Qed.
+Print Assumptions C15_all_is_union.
+
+(* the directed history of the former finding removetx-leaks-all-index: the successor is re-queued *)
+Theorem C15_removetx_requeues :
+  exists p, run (new_pool cfg_tiny 1 [(0, (0, 100000000))] 1000000) leak_history = Ok p /\
+            all_is_unionb p = true /\ pending p = [] /\
+            map (fun kv => (fst kv, map thash (items (snd kv)))) (queue p) = [(0, [2])].
+Proof. exact leak_history_requeues. Qed.
+Print Assumptions C15_removetx_requeues.
 
 (* 1 refuted: a reachable state whose pending list has a gap (nonces 0,2,3 with state nonce 0) *)
 Theorem C15_pending_executable_refuted :
